@@ -24,6 +24,38 @@ def _write(p, s):
         f.write(s)
 
 
+STD_EXTRA = [
+    "#[kani::stub(std::sync::Arc::drop_slow, crate::verif_support::arc_drop_slow_noop)]",
+    "#[kani::stub(std::sync::Once::call_once, crate::verif_support::once_stub)]",
+]
+
+
+def _expand_std_stubs(text):
+    """Every harness that carries the Backtrace stub also gets the two other standard stubs (Arc::drop_slow -> leak,
+    Once::call_once -> run the closure), unless its attribute group says `//@keep-drop`."""
+    out = []
+    lines = text.split("\n")
+    for i, l in enumerate(lines):
+        out.append(l)
+        if "kani::stub(std::backtrace::Backtrace::capture" in l:
+            grp = []
+            j = i
+            while j >= 0 and (lines[j].strip().startswith("#[") or lines[j].strip().startswith("//@")):
+                grp.append(lines[j])
+                j -= 1
+            j = i + 1
+            while j < len(lines) and (lines[j].strip().startswith("#[") or lines[j].strip().startswith("//@")):
+                grp.append(lines[j])
+                j += 1
+            if any("//@keep-drop" in g for g in grp):
+                continue
+            ind = l[:len(l) - len(l.lstrip())]
+            for e in STD_EXTRA:
+                if not any(e.split("(")[1].split(",")[0] in g for g in grp):
+                    out.append(ind + e)
+    return "\n".join(out)
+
+
 def harness_target(path):
     with open(path) as f:
         first = f.readline()
@@ -87,7 +119,7 @@ def apply(scratch, reg, obligations):
         p = scratch.src(rel)
         if not os.path.exists(p):
             raise Undecided("lost anchor: file %s is gone" % rel)
-        body = _read(hp)
+        body = _expand_std_stubs(_read(hp))
         if "#[cfg(kani)]" not in body:
             raise SystemExit("harness %s is not cfg(kani)-guarded" % f)
         s = _read(p)
@@ -101,6 +133,8 @@ def apply(scratch, reg, obligations):
     lib = scratch.src("lib.rs")
     s = _read(lib)
     s += "\n#[cfg(kani)]\n#[allow(dead_code, unused)]\npub(crate) mod verif_support;\n"
+    # crate-level feature gate needed by the generic Arc::drop_slow stub (cfg(kani) only)
+    s = "#![cfg_attr(kani, feature(allocator_api))]\n" + s
     _write(lib, s)
     record["support"].append("verif_support.rs")
     return record
